@@ -113,9 +113,11 @@ def spec_build(case):
     for name, m in case["maps"]:
         if name not in rx:
             return {"err": ["KeyError"]}
-        if any(spec == "derived" for _, spec in raw.get(name, [])):
-            return {"err": ["NotImplementedError"]}  # `_unpack_stoichiometries` refuses a Derived coefficient
-        # (a float coefficient goes through int(): case["base"]["rxns"] holds the truncated integers)
+        bad = c05.first_bad(raw.get(name, []))
+        if bad:
+            # `_unpack_stoichiometries`, entry by entry: a Derived is refused (NotImplementedError), a float that is not
+            # a whole number too (ValueError); whole numbers pass however they are written
+            return {"err": ["NotImplementedError" if bad == "TypeError" else bad]}
         subs, prods = c05.unpack(rx[name]["st"])
         if any(c not in lv for c in subs + prods):
             return {"err": ["KeyError"]}
@@ -676,10 +678,8 @@ def trunc(q):
 
 def with_raw(case, name, kind):
     """the reaction `name` written with coefficients that are not all Python ints: 'floats' (-1.0, 2.0: read as the
-    integers), 'half' (first coefficient v + 1/2: int() truncates towards zero, -1/2 drops the compound), 'derived'
-    (first coefficient a Derived: NotImplementedError), 'ints' (explicit ints).  case['base']['rxns'] keeps the
-    integers the linear mapper effectively reads; the isotopomer mapper refuses such a reaction (TypeError), so
-    these cases are linear-only"""
+    integers by both mappers), 'half' (first coefficient v + 1/2: refused with ValueError), 'derived' (first
+    coefficient a Derived: NotImplementedError), 'ints' (explicit ints)"""
     rx = dict(case["base"]["rxns"])[name]
     coefs, eff = [], []
     for i, (c, v) in enumerate(rx["st"]):
@@ -698,8 +698,8 @@ def with_raw(case, name, kind):
         eff.append([c, e])
     rx["st"] = eff
     case["base"]["raw"] = [[name, coefs]]
-    if kind != "ints":
-        case["no_iso"] = True
+    if kind in ("half", "derived"):
+        case["no_iso"] = True  # rejected by both mappers
     return case
 
 
